@@ -13,6 +13,13 @@ family cannot decide.  Decided necessary conditions (DESIGN.md §2 C12):
             the first (`-` for every subtracted term); nones_are_zeros is `category != METER` or the
             constant that has for the loop's component kind; grid power takes every grid successor of
             the three admissible categories.
+  C12.FALLBACK  in every function that turns the primary/fallback pairing into per-primary fallback formulas (bound by
+            its call of the pairing function): each record is filed under the loop's own primary; the backward slice
+            of the recorded value, cut at the loop header, has no input that the loop body also writes (hoisted
+            accumulator, shared object refilled under an alias, value assigned on some paths only) and stores no
+            un-run lambda / generator over a per-iteration variable; a non-None record is computed from all of that
+            primary's fallback components.  (Assumes: only item/attribute stores, augmented assignments and the
+            standard container mutators change an object; helpers called per primary do not keep state in `self`.)
 
 How the rules read the code (so that behaviour-preserving rewrites do not matter):
   * predicates are compared as *values*: the function's symbolic return expression (locals
@@ -35,9 +42,9 @@ from ..engine.normalize import inline_helpers
 from ..engine.report import AnalysisError, Run
 from ..engine.resolver import FuncInfo, Program, parent_map, walk_no_nested
 from ..engine.util import method_call, node_calls, node_writes, nodes_with_call, reaching_defs
-from ._c12_util import (DupFree, Folder, alias, bcanon, call_args, deref, edges_establishing, emptiness, facts, literals,
-                        normal, path_avoiding_edges, pmap, rename, resolve_callable, simplify_under, single_defs, size_subject,
-                        test_edges, txt)
+from ._c12_util import (EAGER_CONSUMERS, DupFree, Folder, IterationSlice, alias, bcanon, call_args, deref, edges_establishing,
+                        emptiness, facts, literals, name_aliases, normal, path_avoiding_edges, places_read, pmap, rename,
+                        resolve_callable, simplify_under, single_defs, size_subject, test_edges, txt)
 
 CG = "microgrid.component_graph:_MicrogridComponentGraph"
 GEN = "timeseries.formula_engine._formula_generators"
@@ -1386,6 +1393,225 @@ def subtracted_set_ok(cx: Ctx, fn: FuncInfo, summed: list[tuple[str, str]]) -> b
     return bool(minus) and all(s == acc for s in minus)
 
 
+# ------------------------------------------------------------------------------------------------
+def fallback_builders(cx: Ctx) -> list[FuncInfo]:
+    """The functions that turn the primary/fallback pairing into per-primary fallback formulas: bound by their
+    call of the pairing function (whatever they are called, wherever in the generator classes they live)."""
+    pair = cx.R["_get_metric_fallback_components"]
+    out: list[FuncInfo] = []
+    for cls in cx.prog.all_classes():
+        if not cls.module.name.startswith(GEN):
+            continue
+        for m in cls.methods.values():
+            if m.name != pair and any(isinstance(c, ast.Call) and method_call(c, "self", pair) for c in ast.walk(m.node)):
+                out.append(m)
+    return sorted(out, key=lambda m: m.qual)
+
+
+def is_none(e: ast.AST | None) -> bool:
+    return isinstance(e, ast.Constant) and e.value is None
+
+
+def check_fallback(run: Run, cx: Ctx) -> None:
+    """C12.FALLBACK — what is recorded as *the fallback of one primary component* is a function of that primary's
+    own fallback components and of nothing that survives the iteration.  Decided per loop over the pairing result:
+      keyed   every per-primary record (item store into a mapping made before the loop, or the `fallback` argument of
+              a pushed metric) is filed under the loop's own primary;
+      fresh   the backward slice of the recorded value, cut at the loop header, has no input that the loop body also
+              writes (rebinding on some paths only, `+=`, in-place mutation, item / attribute store, under any alias),
+              and no lambda / generator expression that is stored un-run reads a per-iteration variable;
+      own     a record that is not None is computed from this primary's fallback set, which no comprehension / filter
+              on the way narrows."""
+    pair = cx.R["_get_metric_fallback_components"]
+    assert pair is not None
+    n_loops = 0
+    for m in fallback_builders(cx):
+        fn = cx.prep(m)
+        run.analysed(fn.qual)
+        cfg = CFG(fn.node, fn.file)
+        defs = cx.defs(fn)
+        aliases = name_aliases(fn.node)
+        short = f"{fn.cls.name if fn.cls else ''}.{fn.name}"
+
+        def shape(it: ast.AST, target: ast.AST, fn: FuncInfo = fn, defs: dict[str, ast.AST] = defs) -> tuple[str, str | None, ast.AST] | None:
+            """(primary variable, fallback-set variable or None, the mapping iterated) of a loop over the pairing."""
+            e = unwrap(cx.value(fn, defs, it))
+            raw = unwrap(it)
+            if isinstance(e, ast.Call) and isinstance(e.func, ast.Name) and e.func.id == "enumerate" and e.args:
+                if not (isinstance(target, ast.Tuple) and len(target.elts) == 2):
+                    return None
+                e, target = unwrap(e.args[0]), target.elts[1]
+                raw = raw.args[0] if isinstance(raw, ast.Call) and raw.args else raw
+            items = False
+            if isinstance(e, ast.Call) and isinstance(e.func, ast.Attribute) and e.func.attr in ("items", "keys") and not e.args:
+                items = e.func.attr == "items"
+                e = e.func.value
+                raw = raw.func.value if isinstance(raw, ast.Call) and isinstance(raw.func, ast.Attribute) and raw.func.attr in ("items", "keys") else raw
+            if not (isinstance(e, ast.Call) and method_call(e, "self", pair)):
+                return None
+            if items and isinstance(target, ast.Tuple) and len(target.elts) == 2 and all(isinstance(t, ast.Name) for t in target.elts):
+                return target.elts[0].id, target.elts[1].id, raw  # type: ignore[attr-defined]
+            if not items and isinstance(target, ast.Name):
+                return target.id, None, raw
+            raise AnalysisError(f"{fn.qual}: loop over the primary/fallback pairing at line {getattr(it, 'lineno', 0)} binds "
+                                f"`{txt(target)}`: cannot tell the primary from its fallback components")
+
+        loops = [(n, sh) for n in cfg.nodes if n.kind == "for" for sh in [shape(n.ast.iter, n.ast.target)] if sh is not None]  # type: ignore[union-attr]
+        comps = [(c, sh) for c in ast.walk(fn.node) if isinstance(c, (ast.DictComp, ast.ListComp, ast.SetComp, ast.GeneratorExp))
+                 and len(c.generators) == 1 for sh in [shape(c.generators[0].iter, c.generators[0].target)] if sh is not None]
+        if not loops and not comps:
+            raise AnalysisError(f"{fn.qual} asks for the primary/fallback pairing but no loop over its result was found: "
+                                "cannot tell how the per-primary fallback formulas are built")
+        for comp, (prim, fb, mapping) in comps:
+            # a comprehension has no statements: each element is computed in its own scope, nothing is carried over
+            n_loops += 1
+            key, value = (comp.key, comp.value) if isinstance(comp, ast.DictComp) else (None, comp.elt)
+            run.check(key is None or txt(cx.value(fn, defs, key)) == prim, "C12.FALLBACK", fn.qual, f"`{txt(key)}` is the primary",
+                      "a fallback formula is recorded under another key than the primary component it was built for",
+                      node=comp, file=fn.file, instance=f"{short}: each fallback is filed under its own primary")
+            reads = places_read(deref(value, defs, containers=True)) | places_read(value)
+            want = {fb} if fb is not None else {prim}
+            run.check(want <= {r.split(".")[0] for r in reads}, "C12.FALLBACK", fn.qual, "fallback built from the primary's own fallback set",
+                      "the fallback formula of a primary is not computed from that primary's own fallback components",
+                      node=comp, file=fn.file, instance=f"{short}: a fallback is built from its primary's own fallback components")
+        for head, (prim, fb, mapping) in loops:
+            n_loops += 1
+            h = head.id
+            loop = head.ast
+            entry = [x for x, lab in cfg.succ[h] if lab == "iter"]
+            body = cfg.reachable(entry, avoid=[h] + [x for x, lab in cfg.succ[h] if lab == "done"], edge_ok=normal)
+            own_vars = {prim} | ({fb} if fb is not None else set()) | {x.id for x in ast.walk(loop.target) if isinstance(x, ast.Name)}  # type: ignore[union-attr]
+            val = lambda e, fn=fn, defs=defs: cx.value(fn, defs, e)  # noqa: E731
+            # the per-primary records made in this iteration: (node, key, value, what it is)
+            sinks: list[tuple[int, ast.AST | None, ast.AST, str]] = []
+            for nid in sorted(body):
+                node = cfg.nodes[nid]
+                if node.ast is None:
+                    continue
+                a = node.ast
+                if node.kind == "stmt" and isinstance(a, (ast.Assign, ast.AnnAssign)) and a.value is not None:
+                    for t in (a.targets if isinstance(a, ast.Assign) else [a.target]):
+                        if isinstance(t, ast.Subscript) and isinstance(t.value, ast.Name) and t.value.id not in own_vars \
+                                and not IterationSlice(cfg, h, body, own_vars, aliases).nearest(t.value.id, nid)[0]:
+                            sinks.append((nid, t.slice, a.value, f"`{txt(t)} = ...`"))
+                for c in node_calls(cfg, nid, lambda c: True):
+                    if is_call_attr(c, "push_component_metric"):
+                        args = call_args(c, cx.sigs["push_component_metric"]) or {}
+                        if "fallback" in args:
+                            cid = args.get("component_id")
+                            key = cid.value if isinstance(cid, ast.Attribute) and cid.attr == "component_id" else cid
+                            sinks.append((nid, key, args["fallback"], "the `fallback=` of the pushed metric"))
+                    elif is_call_attr(c, "setdefault") and isinstance(c.func.value, ast.Name) and len(c.args) == 2 \
+                            and c.func.value.id not in own_vars:  # type: ignore[attr-defined]
+                        sinks.append((nid, c.args[0], c.args[1], f"`{txt(c)[:40]}`"))
+                    elif is_call_attr(c, "update") and isinstance(c.func.value, ast.Name) and len(c.args) == 1 \
+                            and isinstance(c.args[0], ast.Dict) and len(c.args[0].keys) == 1 and c.args[0].keys[0] is not None:  # type: ignore[attr-defined]
+                        sinks.append((nid, c.args[0].keys[0], c.args[0].values[0], f"`{txt(c)[:40]}`"))
+            live = [s for s in sinks if not is_none(s[2])]
+            if not live:
+                raise AnalysisError(f"{fn.qual}: the loop over the primary/fallback pairing at line {loop.lineno} records no "  # type: ignore[union-attr]
+                                    "per-primary fallback (item store / `fallback=` argument): cannot tell what is built")
+            ok_key = all(k is not None and txt(unwrap(val(k))) == prim for _n, k, _v, _w in sinks)
+            run.check(ok_key, "C12.FALLBACK", fn.qual, f"per-primary records are keyed by `{prim}`",
+                      "a fallback formula is recorded under another key than the primary component it was built for: "
+                      "when that primary drops out, the devices of a different meter stand in for it",
+                      node=loop, file=fn.file, instance=f"{short}: each fallback is filed under its own primary")
+            carried: list[str] = []
+            late: list[str] = []
+            own_ok = True
+            narrowed: list[str] = []
+            for nid, _k, v, what in sinks:
+                sl = IterationSlice(cfg, h, body, own_vars, aliases)
+                sl.follow(v, nid)
+                for place, eff in sl.carried():
+                    made = defs.get(place.split(".")[0])
+                    where = f"made before the loop as `{txt(made)[:30]}`" if made is not None and place.split(".")[0] in defs else "not made in this iteration"
+                    how = "updated in place" if eff.updates else "rebound on some paths only"
+                    msg = (f"`{place}` ({where}) is {how} inside the loop (line {getattr(eff.node, 'lineno', 0)}: "
+                           f"`{txt(eff.node)[:60]}`) and flows into {what} at line {cfg.nodes[nid].lineno}")
+                    if msg not in carried:
+                        carried.append(msg)
+                # closures stored un-run: they read their free variables when the fallback is *evaluated*
+                rebound = own_vars | {e.place.split(".")[0] for x in body for e in sl.effects(x)}
+                for clo, at in stored_closures(sl, v, nid):
+                    bad = sorted(r for r in places_read(clo, lazy_only=True) if r.split(".")[0] in rebound)
+                    if bad:
+                        late.append(f"`{txt(clo)[:50]}` (line {getattr(clo, 'lineno', 0)}) is stored un-run and reads {bad} later")
+                if not is_none(v):
+                    roots = {r.split(".")[0] for r in sl.reads}
+                    src = fb if fb is not None else prim
+                    if src not in roots or (fb is None and not any(isinstance(x, ast.Subscript) and txt(x.slice) == prim
+                                                                   for e in sl.exprs for x in ast.walk(e))):
+                        own_ok = False
+                    if fb is not None:
+                        for e in sl.exprs:
+                            for x in ast.walk(e):
+                                if isinstance(x, (ast.ListComp, ast.SetComp, ast.GeneratorExp, ast.DictComp)) and any(
+                                        txt(unwrap(g.iter)) == fb and g.ifs for g in x.generators):
+                                    narrowed.append(txt(x)[:60])
+                                elif isinstance(x, ast.Call) and isinstance(x.func, ast.Name) and x.func.id == "filter" \
+                                        and len(x.args) == 2 and txt(unwrap(x.args[1])) == fb and not is_none(x.args[0]):
+                                    narrowed.append(txt(x)[:60])
+            run.check(not carried and not late, "C12.FALLBACK", fn.qual,
+                      "; ".join(carried + late) or "the fallback of a primary is computed from this iteration's values only",
+                      "what is recorded as the fallback of ONE primary component is computed from state that survives the "
+                      "loop iteration: " + ("; ".join(carried + late) or "-") + ". The fallback generators are evaluated "
+                      "lazily (after the loop has finished), so a collection that is created once and filled per primary is "
+                      "one shared, accumulating object: every meter's fallback becomes the devices of ALL meters, and as soon "
+                      "as one meter drops out the other groups are counted twice (battery/PV/... power is no longer the true "
+                      "total; grid != consumer + producer + battery + EV). The same clause excludes: a hoisted list/set that "
+                      "is `+=`/`|=`-extended or `.clear()`ed and refilled (one aliased object: the last primary wins), a value "
+                      "assigned on some paths only (the previous primary's value is reused), and a lambda / generator "
+                      "expression stored in the fallback that reads a per-iteration variable when it is finally run",
+                      node=loop, file=fn.file, instance=f"{short}: a fallback is computed from its own iteration's values only")
+            run.check(own_ok and not narrowed, "C12.FALLBACK", fn.qual,
+                      f"fallback of `{prim}` built from " + (f"all of `{fb}`" if fb else f"`<pairing>[{prim}]`")
+                      + (f" (narrowed by {narrowed})" if narrowed else ""),
+                      "the fallback formula of a primary is not computed from that primary's own fallback components — all of "
+                      "them (e.g. from every component handed in, from the primary itself, or from a filtered subset): when the "
+                      "meter drops out, what stands in for it is not the sum of the devices below it",
+                      node=loop, file=fn.file, instance=f"{short}: a fallback is built from its primary's own fallback components")
+    if n_loops == 0:
+        raise AnalysisError("C12.FALLBACK: no function builds per-primary fallback formulas from the pairing")
+
+
+def stored_closures(sl: IterationSlice, e: ast.AST, at: int, depth: int = 0) -> list[tuple[ast.AST, int]]:
+    """Lambdas / generator expressions that end up *inside* the value `e` without having been run: reached through
+    constructor / call arguments, containers, conditional expressions and the locals they were put in — not
+    through a call that consumes its argument on the spot (`set(...)`, `list(...)`, `sorted(...)`, ...)."""
+    out: list[tuple[ast.AST, int]] = []
+    if depth > 8:
+        return out
+    if isinstance(e, (ast.Lambda, ast.GeneratorExp)):
+        out.append((e, at))
+    elif isinstance(e, ast.Call):
+        if isinstance(e.func, ast.Name) and e.func.id in EAGER_CONSUMERS:
+            return out
+        if isinstance(e.func, ast.Attribute) and e.func.attr in ("join", "union", "intersection", "difference", "issubset", "issuperset"):
+            return out
+        for a in list(e.args) + [k.value for k in e.keywords]:
+            out.extend(stored_closures(sl, a.value if isinstance(a, ast.Starred) else a, at, depth + 1))
+    elif isinstance(e, (ast.Tuple, ast.List, ast.Set)):
+        for a in e.elts:
+            out.extend(stored_closures(sl, a, at, depth + 1))
+    elif isinstance(e, ast.Dict):
+        for a in e.values:
+            out.extend(stored_closures(sl, a, at, depth + 1))
+    elif isinstance(e, ast.IfExp):
+        out.extend(stored_closures(sl, e.body, at, depth + 1) + stored_closures(sl, e.orelse, at, depth + 1))
+    elif isinstance(e, ast.BoolOp):
+        for a in e.values:
+            out.extend(stored_closures(sl, a, at, depth + 1))
+    elif isinstance(e, ast.Name):
+        for p, eff in sl.nearest(e.id, at)[0]:
+            if eff.place == e.id and not eff.updates and isinstance(eff.node, (ast.Assign, ast.AnnAssign, ast.NamedExpr)):
+                for d in eff.deps:
+                    out.extend(stored_closures(sl, d, p, depth + 1))
+            elif eff.place == e.id and isinstance(eff.node, (ast.FunctionDef, ast.AsyncFunctionDef)):
+                out.append((eff.node, p))
+    return out
+
+
 CG_MOD = "microgrid.component_graph"
 CONTROLS = [
     ("is_chp_chain dropped from one sibling", f"{GEN}._consumer_power_formula",
@@ -1443,6 +1669,35 @@ CONTROLS = [
     ("pairing loop stops at the first paired device", f"{GEN}._formula_generator",
      "                        fallbacks.setdefault(predecessor, set()).add(component)\n                        continue\n",
      "                        fallbacks.setdefault(predecessor, set()).add(component)\n                        break\n", "C12.METER"),
+    ("fallback ids accumulated across primaries (list hoisted out of the loop, `+=`)", f"{GEN}._pv_power_formula",
+     "        for primary_component, fallback_components in fallbacks.items():\n            if len(fallback_components) == 0:\n"
+     "                fallback_formulas[primary_component] = None\n                continue\n"
+     "            fallback_ids = [c.component_id for c in fallback_components]\n",
+     "        fallback_ids: list[int] = []\n"
+     "        for primary_component, fallback_components in fallbacks.items():\n            if len(fallback_components) == 0:\n"
+     "                fallback_formulas[primary_component] = None\n                continue\n"
+     "            fallback_ids += [c.component_id for c in fallback_components]\n", "C12.FALLBACK"),
+    ("one battery-id set shared by every fallback generator (cleared and refilled under an alias)", f"{GEN}._battery_power_formula",
+     "        for primary_component, fallback_components in fallbacks.items():\n            if len(fallback_components) == 0:\n"
+     "                fallback_formulas[primary_component] = None\n                continue\n\n"
+     "            battery_ids = set(\n",
+     "        shared_ids: set[int] = set()\n"
+     "        for primary_component, fallback_components in fallbacks.items():\n            if len(fallback_components) == 0:\n"
+     "                fallback_formulas[primary_component] = None\n                continue\n\n"
+     "            battery_ids = shared_ids\n            battery_ids.clear()\n            battery_ids |= set(\n", "C12.FALLBACK"),
+    ("fallback ids assigned for multi-device meters only (else the previous primary's)", f"{GEN}._producer_power_formula",
+     "            fallback_ids = [c.component_id for c in fallback_components]\n            generator = SimplePowerFormula(",
+     "            if len(fallback_components) > 1:\n                fallback_ids = [c.component_id for c in fallback_components]\n"
+     "            generator = SimplePowerFormula(", "C12.FALLBACK"),
+    ("fallback of a primary built from all components handed in", f"{GEN}._producer_power_formula",
+     "            fallback_ids = [c.component_id for c in fallback_components]\n            generator = SimplePowerFormula(",
+     "            fallback_ids = [c.component_id for c in components]\n            generator = SimplePowerFormula(", "C12.FALLBACK"),
+    ("fallback filed under one of its own devices instead of the primary", f"{GEN}._consumer_power_formula",
+     "            fallback_formulas[primary_component] = FallbackFormulaMetricFetcher(\n",
+     "            fallback_formulas[next(iter(fallback_components))] = FallbackFormulaMetricFetcher(\n", "C12.FALLBACK"),
+    ("fallback ids handed over as an un-run generator over a per-iteration local", f"{GEN}._grid_power_formula",
+     "                    component_ids=set(fallback_ids),\n",
+     "                    component_ids=(i for _once in (0,) for i in fallback_ids),\n", "C12.FALLBACK"),
 ]
 
 
@@ -1452,6 +1707,7 @@ def run_rules(run: Run, prog: Program) -> None:
     check_meter(run, cx)
     check_dfs(run, cx)
     check_emit(run, cx)
+    check_fallback(run, cx)
     for helper in cx.folder.read.values():  # private helpers read in line are part of what the rules depend on
         if helper.outer is None:
             run.analysed(helper.qual)
@@ -1464,14 +1720,18 @@ def check(run: Run, prog: Program, tier: str) -> str:
     run.rule("C12.DFS", "dfs stops at the first match, marks visited first, recurses over all successors")
     run.rule("C12.EMIT", "sum loops emit one metric per term with an operator between terms; nones_are_zeros = category != METER; "
              "grid power over every measurable grid successor")
+    run.rule("C12.FALLBACK", "the fallback formula recorded for a primary component is filed under that primary and computed from "
+             "its own fallback components and this iteration's values only (no state carried across primaries, no late-bound closure)")
     run_rules(run, prog)
+    run.floor("C12.FALLBACK", 3)
     run.floor("C12.PART", 8)
     run.floor("C12.METER", 11)
     run.floor("C12.DFS", 4)
     run.floor("C12.EMIT", 20)
     from ..engine.controls import run_controls
 
-    by_rule = {"C12.PART": check_part, "C12.METER": check_meter, "C12.DFS": check_dfs, "C12.EMIT": check_emit}
+    by_rule = {"C12.PART": check_part, "C12.METER": check_meter, "C12.DFS": check_dfs, "C12.EMIT": check_emit,
+               "C12.FALLBACK": check_fallback}
     run_controls(run, CONTROLS, run_rules, tier, select=lambda rule: (lambda r, p: by_rule[rule](r, Ctx(p))))
     run.undecided("that these traversals produce the true totals on every valid component graph (nested meters, "
                   "mixed meters, unmetered load): a graph-algorithm correctness statement over all topologies — "
